@@ -93,6 +93,8 @@ impl Persister for FilePersister {
                 format!("{COMPONENT} (error: {error}) - failed to flush data to file: {path}")
             })
             .map_err(|_| IggyError::CannotWriteToFile)?;
+        #[cfg(feature = "iggy_verif")]
+        crate::verif::fs_event("append", path, bytes.len() as u64);
         Ok(())
     }
 
@@ -116,6 +118,8 @@ impl Persister for FilePersister {
                 format!("{COMPONENT} (error: {error}) - failed to flush data to file: {path}")
             })
             .map_err(|_| IggyError::CannotWriteToFile)?;
+        #[cfg(feature = "iggy_verif")]
+        crate::verif::fs_event("overwrite", path, bytes.len() as u64);
         Ok(())
     }
 
@@ -126,6 +130,8 @@ impl Persister for FilePersister {
                 format!("{COMPONENT} (error: {error}) - failed to delete file: {path}")
             })
             .map_err(|_| IggyError::CannotDeleteFile)?;
+        #[cfg(feature = "iggy_verif")]
+        crate::verif::fs_event("delete", path, 0);
         Ok(())
     }
 }
@@ -156,6 +162,8 @@ impl Persister for FileWithSyncPersister {
                 )
             })
             .map_err(|_| IggyError::CannotSyncFile)?;
+        #[cfg(feature = "iggy_verif")]
+        crate::verif::fs_event("append", path, bytes.len() as u64);
         Ok(())
     }
 
@@ -180,6 +188,8 @@ impl Persister for FileWithSyncPersister {
                 )
             })
             .map_err(|_| IggyError::CannotSyncFile)?;
+        #[cfg(feature = "iggy_verif")]
+        crate::verif::fs_event("overwrite", path, bytes.len() as u64);
         Ok(())
     }
 
@@ -190,6 +200,8 @@ impl Persister for FileWithSyncPersister {
                 format!("{COMPONENT} (error: {error}) - failed to delete file: {path}")
             })
             .map_err(|_| IggyError::CannotDeleteFile)?;
+        #[cfg(feature = "iggy_verif")]
+        crate::verif::fs_event("delete", path, 0);
         Ok(())
     }
 }
